@@ -59,6 +59,8 @@ DEFAULT_PROFILE = {
     'trace_loops': 0.15,     # chance that a loop body starts by printing its variables
     'trace_vars': 0.1,       # chance of printing visible variables around calls
     'zero_cycle': False,     # `repeat 0 with v cycle` (C04)
+    'choose_counts': 0.1,    # share of loop counts that are [choose k]
+    'nested_defs': 0.0,      # routine definitions inside if/repeat bodies (C05)
     'max_cost': 2500,
 }
 
@@ -130,7 +132,7 @@ class Gen:
         self.routines = {}      # name -> dict(params=[(n,t)], ret=t|None, cost)
         self.gdefined = {}      # globals definitely assigned (top level)
         self.mode = 'logical'
-        self.marker = 0
+        self.marker_n = 1000
         self.choose_id = 0
         self.tags = set()
         self.time_is_pattern = False
@@ -451,7 +453,9 @@ class Gen:
                 continue
             if k in ('if', 'repeat') and depth <= 0:
                 continue
-            if k == 'routine' and not (top and self.p['routines']):
+            if k == 'routine' and not (self.p['routines'] and (
+                    top or (self.p['nested_defs'] and not sc.in_routine
+                            and not sc.in_matrix))):
                 continue
             if k in ('units', 'define') and not top:
                 continue
@@ -865,6 +869,8 @@ class Gen:
         return self.rng.choice(cands) if cands else None
 
     def count_expr(self, sc):
+        if self.rng.random() < self.p['choose_counts']:
+            return self.new_choose()
         r = self.rng.random()
         if r < 0.7:
             return ['num', self.rng.choice([0, 1, 2, 2, 3, 3, 4, 7])]
@@ -873,10 +879,7 @@ class Gen:
             if names:
                 # unknown magnitude: clamp with modulo
                 return ['bin', '%', ['var', self.rng.choice(names)], ['num', 4]]
-        if r < 0.9:
-            return ['bin', '+', ['num', 1], ['num', self.rng.choice([0, 1, 2])]]
-        c = self.new_choose()
-        return c
+        return ['bin', '+', ['num', 1], ['num', self.rng.choice([0, 1, 2])]]
 
     def k_repeat(self, sc, depth):
         kinds = [('count', 5), ('range', 4), ('interp', 3), ('cycle', 2),
@@ -1049,8 +1052,13 @@ class Gen:
     def k_routine(self, sc, depth):
         cands = [n for n in ROUTINE_NAMES if n not in self.routines
                  and n not in self.gdefined and n not in self.macros]
-        if not cands or not self.straight:
+        nested = not self.straight
+        if not cands or (nested and
+                         self.rng.random() >= self.p['nested_defs']):
             return self.k_print(sc, depth)
+        if nested:
+            self.tag('routine-defined-in-' + (
+                'loop' if sc.loop_depth else 'if'))
         name = self.rng.choice(cands)
         nparams = self.rng.choice([0, 1, 1, 2, 2, 3, 4])
         params = []
@@ -1149,11 +1157,49 @@ def generate(rng, pop, prof=None, tries=20):
         except TooBig as ex:
             last = ex
             continue
+        call_uncalled(prog, g)
         clamp_recursion(prog, g)
         decisions = [1 if rng.random() < 0.55 else 0
                      for _ in range(rng.choice([0, 8, 32, 64]))]
         return prog, g.tags, decisions
     raise last
+
+
+def call_uncalled(prog, g):
+    """every routine is called at least once from the top level"""
+    called = set()
+
+    def walk(node):
+        if isinstance(node, list):
+            if node and node[0] == 'call' and isinstance(node[1], str):
+                called.add(node[1])
+            if node and node[0] == 'routine':
+                walk(node[3])       # calls inside bodies count only if reached
+                return
+            for x in node:
+                walk(x)
+        elif isinstance(node, dict):
+            for x in node.values():
+                walk(x)
+    # calls made from the top level (outside routine bodies)
+    for st in prog:
+        if st[0] != 'routine':
+            walk(st)
+    sc = Scope()
+    for name, f in g.routines.items():
+        if name in called:
+            continue
+        args = []
+        for _, t in f['params']:
+            if t == 'int':
+                args.append(['num', g.rng.choice([0, 1, 2, 3])])
+            elif t == 'num':
+                args.append(['num', g.rng.choice([1.5, 20, 50])])
+            else:
+                args.append(['str', g.rng.choice(g.lights or ['ghost'])])
+        if g.p['markers']:
+            prog.append(g.marker())
+        prog.append(['call', name, args, None])
 
 
 def clamp_recursion(prog, g):
